@@ -146,7 +146,7 @@ pub fn check(property: &str, tier: &str, started: Instant) -> i32 {
         } else {
             (h.clone(), f.violation.clone(), false, 0)
         };
-        let path = runner::verif_path(&format!("replays/{}-{}-{}.json", property, f.seed, rng::fnv(&f.signature) % 100000));
+        let path = runner::replay_path(&format!("{}-{}-{}.json", property, f.seed, rng::fnv(&f.signature) % 100000));
         if let Err(e) = runner::write_json(&path, &replay_value(property, f, &case, &violation, minimised, evals)) {
             eprintln!("HARNESS-ERROR: {}", e);
             return 2;
